@@ -193,7 +193,7 @@ def run_alignfn(ctx) -> RuleResult:
             raw = last.node.value
             value = last.expand(raw)
             trace = describe_path(path)
-            # return tuple(L)
+            # return tuple(<order-preserving images of the arguments>)
             ok = isinstance(value, ast.Call) and isinstance(value.func, ast.Name) and value.func.id == "tuple" and len(value.args) == 1
             if not ok:
                 result.ob(f"{name}: returns tuple(<list of images>)", False, module.loc(last.orig), _txt(value)[:80])
@@ -202,21 +202,13 @@ def run_alignfn(ctx) -> RuleResult:
                                    derivation=trace))
                 continue
             lst = value.args[0]
-            base = lst
-            if isinstance(base, ast.Call) and isinstance(base.func, ast.Name) and base.func.id == "list" and base.args:
-                inner = base.args[0]
-                if isinstance(inner, ast.Call) and (ctx.dotted(module, inner.func) or "").endswith("align_indeterminants") \
-                        and len(inner.args) == 1 and isinstance(inner.args[0], ast.Starred):
-                    base = inner.args[0].value
-            ok = (
-                isinstance(base, ast.ListComp) and len(base.generators) == 1 and not base.generators[0].ifs
-                and is_param(base.generators[0].iter, vararg)
-                and is_S(_strip_call(base.elt), "elem")
-            )
-            result.ob(f"{name}: images listed in argument order [{len(trace)} decisions]", ok, module.loc(last.orig), _txt(base)[:80])
-            if not ok:
+            verdict = _ordered_images(ctx, module, lst, vararg)
+            if verdict is None:
+                raise AnalysisError(f"{name}: unrecognised construction of the returned list: {_txt(lst)[:100]}")
+            result.ob(f"{name}: images listed in argument order [{len(trace)} decisions]", verdict, module.loc(last.orig), _txt(lst)[:80])
+            if not verdict:
                 result.add(Finding("R-ALIGNFN", module, name, last.node,
-                                   f"the returned list is {_txt(base)[:100]}, not one image per argument in order",
+                                   f"the returned list is {_txt(lst)[:100]}, not one image per argument in order",
                                    derivation=trace))
             # every slot update L[idx] = value(elem idx)
             var = raw.args[0].id if isinstance(raw, ast.Call) and raw.args and isinstance(raw.args[0], ast.Name) else None
@@ -263,7 +255,19 @@ def run_alignfn(ctx) -> RuleResult:
     result.ob("align_exponents rebuilds every operand on every path", not any(
         f.construct == "align_exponents: operand not rebuilt" for f in result.findings), module.loc(func), f"{n_iter} iterations examined")
     if n_iter == 0:
-        raise AnalysisError("align_exponents: rebuild loop not recognised")
+        # comprehension form: every element of the returned tuple is an unconditional constructor call
+        fresh = False
+        for path in ctx.paths_auto(module, func):
+            last = path[-1]
+            if last.kind == "return" and last.node.value is not None:
+                value = last.expand(last.node.value)
+                for node in walk_shared(value):
+                    if isinstance(node, (ast.ListComp, ast.GeneratorExp)) and isinstance(node.elt, ast.Call) \
+                            and "from_attributes" in U(node.elt.func):
+                        fresh = True
+        if not fresh:
+            raise AnalysisError("align_exponents: rebuild loop not recognised")
+        result.ob("align_exponents rebuilds every operand (comprehension of constructor calls)", True, module.loc(func), "")
     # the union ranges over all arguments
     checks = (
         ("align_exponents", "numpy.vstack", "exponents"),
@@ -275,7 +279,7 @@ def run_alignfn(ctx) -> RuleResult:
         for call in calls_in(func):
             if ctx.dotted(module, call.func) == callee and call.args:
                 arg = call.args[0].value if isinstance(call.args[0], ast.Starred) else call.args[0]
-                if isinstance(arg, ast.ListComp):
+                if isinstance(arg, (ast.ListComp, ast.GeneratorExp)):
                     found = True
                     gen = arg.generators[0]
                     ok = not gen.ifs and isinstance(gen.iter, ast.Name) and U(arg.elt).endswith("." + attr)
@@ -308,18 +312,20 @@ def run_alignfn(ctx) -> RuleResult:
                            "and the 'index order' of the statement is lost", construct="common_names sort key"))
     # align_shape rebuilds exactly the operands whose shape differs from the common shape
     func = ctx.repo.function(modname, "align_shape")
-    guards = [n for n in ast.walk(func) if isinstance(n, ast.If) and any(isinstance(s, ast.Assign) and isinstance(s.targets[0], ast.Subscript) for s in n.body)]
-    if len(guards) != 1:
+    tests = [n.test for n in ast.walk(func) if isinstance(n, (ast.If, ast.IfExp))]
+    shape_tests = [t for t in tests if isinstance(t, ast.Compare) and len(t.ops) == 1
+                   and any(isinstance(x, ast.Attribute) and x.attr in ("shape", "ndim", "size") for x in [t.left, t.comparators[0]])]
+    if len(shape_tests) != 1:
         raise AnalysisError("align_shape: rebuild guard not recognised")
-    test = guards[0].test
-    ok = isinstance(test, ast.Compare) and len(test.ops) == 1 and isinstance(test.ops[0], ast.NotEq) \
+    test = shape_tests[0]
+    ok = isinstance(test.ops[0], (ast.NotEq, ast.Eq)) \
         and isinstance(test.left, ast.Attribute) and test.left.attr == "shape" \
         and isinstance(test.comparators[0], ast.Attribute) and test.comparators[0].attr == "shape"
     result.ob("align_shape broadcasts every operand whose shape differs from the common shape", ok, module.loc(test), U(test))
     if not ok:
         result.add(Finding("R-ALIGNFN", module, "align_shape", test,
-                           f"the rebuild guard is '{U(test)}', not '<operand>.shape != <common>.shape': an operand of the "
-                           f"common rank but with a length-1 axis is not broadcast", construct="align_shape: guard"))
+                           f"the rebuild guard is '{U(test)}', not a comparison of '<operand>.shape' with '<common>.shape': an "
+                           f"operand of the common rank but with a length-1 axis is not broadcast", construct="align_shape: guard"))
     # align_polynomials = align_exponents(*align_shape(*polys))
     func = ctx.repo.function(modname, "align_polynomials")
     for path in ctx.paths(module, func):
@@ -333,6 +339,35 @@ def run_alignfn(ctx) -> RuleResult:
                                f"align_polynomials returns {text[:80]}"))
     result.floor = 10
     return result
+
+
+def _ordered_images(ctx, module, expr, vararg):
+    """True: one image per argument in argument order; False: known reordering; None: unrecognised."""
+    if is_param(expr, vararg):
+        return True
+    if isinstance(expr, ast.Call) and isinstance(expr.func, ast.Name) and expr.func.id in ("list", "tuple") and len(expr.args) == 1:
+        return _ordered_images(ctx, module, expr.args[0], vararg)
+    if isinstance(expr, ast.Call) and isinstance(expr.func, ast.Name) and expr.func.id in ("reversed", "sorted", "set", "frozenset"):
+        return False
+    if isinstance(expr, ast.Subscript) and isinstance(expr.slice, ast.Slice):
+        sl = expr.slice
+        if sl.lower is None and sl.upper is None and sl.step is None:
+            return _ordered_images(ctx, module, expr.value, vararg)
+        return False  # a reversed / partial slice
+    if isinstance(expr, ast.Call) and not is_S(expr) and (ctx.dotted(module, expr.func) or "").startswith("numpoly.align.align_") \
+            and len(expr.args) == 1 and isinstance(expr.args[0], ast.Starred):
+        return _ordered_images(ctx, module, expr.args[0].value, vararg)
+    if isinstance(expr, (ast.ListComp, ast.GeneratorExp)) and len(expr.generators) == 1:
+        gen = expr.generators[0]
+        if gen.ifs:
+            return False  # filtering drops arguments
+        inner = _ordered_images(ctx, module, gen.iter, vararg)
+        if inner is not True:
+            return inner
+        # the element must be computed from the element of this generator
+        own = any(is_S(n, "elem") and _txt(n.args[0]) == _txt(gen.iter) for n in walk_shared(expr.elt))
+        return True if own else None
+    return None
 
 
 def _report_skip(result, module, iter_step, path):
